@@ -30,8 +30,25 @@ def load_sidecars(prop):
             if k.isupper() and isinstance(v, (str, int, float)):
                 api.REG.consts[k] = v
     work = os.path.join(os.environ.get("VERIF_EVIDENCE_DIR", os.path.join(ROOT, "evidence")), "work", prop + ".extract.json")
-    if os.path.exists(work):
-        api.REG.consts.update(json.load(open(work)).get("consts", {}))
+    if api.REG.extracts:
+        import subprocess
+        os.makedirs(os.path.dirname(work), exist_ok=True)
+        p_ = subprocess.run(["/venv/bin/python", "-m", "native.extract", prop, "--out", work], cwd=ROOT, capture_output=True, text=True)
+        if p_.returncode != 0:
+            raise RuntimeError("constant extraction failed: " + (p_.stderr or p_.stdout)[-300:])
+
+        def unj(v):
+            if isinstance(v, dict) and "$set" in v:
+                return set(unj(x) for x in v["$set"])
+            if isinstance(v, dict) and "$tuple" in v:
+                return tuple(unj(x) for x in v["$tuple"])
+            if isinstance(v, dict) and "$enum" in v:
+                return unj(v["value"])
+            if isinstance(v, list):
+                return [unj(x) for x in v]
+            return v
+        for k, v in json.load(open(work)).get("consts", {}).items():
+            api.REG.consts[k] = unj(v)
     return api.REG
 
 
